@@ -123,6 +123,11 @@ def run_case(c, d):
     c.compare('frequencies-are-k*fs/NFFT', fr, np.arange(len(fr)) * fs / NFFT, 1e-12, feats, scale=fs, detail=det)
     if cls == 'pma' or not ok_len or len(psd) != len(fr) or not np.all(np.isfinite(psd.real)):
         return
+    if cls == 'parma' and params['lag'] > N // 2:
+        # unbiased correlation lags beyond N/2 rest on a handful of products: where such a fit puts its poles is a
+        # statistical matter, not an axis matter (the axis clauses above were still judged)
+        c.discard('tone-clause:arma-lag-beyond-N/2')
+        return
     charact = None
     if cls == 'parma' and params['P'] < params['Q']:
         feats = dict(feats, p_lt_q=True)
